@@ -83,6 +83,19 @@ CLAIMED.update({
             "DESIGN.md 4/C17"),
 })
 
+TGEN_NOTE = ("Trusted: Coq kernel, the GoLite->Gallina translator harness/cmd/gvgen (run on /repo/bleparser on every check; integer typing from go/types; stops on any "
+             "construct outside the subset) with its target vocabulary coq/Ble/GoSem.v, the T-obs enum tables, extraction, OCaml driver, Go harness. The translator is "
+             "validated on every run by executing the translated decoders against the real ones on the whole generated input set. ")
+
+CLAIMED.update({
+    "C07": ("Coq refinement theorems: each of the 13 decoders, translated from the Go source on every run, equals the layout specification for EVERY input (generic lia-based script) + translator validation + spec judge on the implementation",
+            "C07_all_decoders: for all byte lists, each translated decoder returns exactly spec_decode of its layout table (bit slice, signedness, scale/offset, NA codes, aux-mode selection, enum validation); C07_bits_is_le_slice and C07_bits_outside give the meaning of a bit slice and non-interference. The 13 refinement proofs are re-run whenever bleparser changes. The real decoders are run on every raw value of every field (exhaustive up to 12/22 bits) in three contexts, all enum bytes, all lengths, and compared with both the translation and the specification.",
+            TGEN_NOTE + "float64 rounding is not modelled (exact rationals; decimal literals denote reals; tolerance 1e-9).", "DESIGN.md 4/C07"),
+    "C08": ("Coq theorems derived from the 13 refinements (no fault for any input; ErrInputTooShort iff shorter than the documented length; suffix independence via spec_decode_app) + correspondence with cap == len and poisoned spare capacity",
+            "C08_all_decoders: for every input of any length no decoder faults (index/slice/fixed-width reads judged against len), the error is ErrInputTooShort exactly when the input is shorter than ceil(max(start+width)/8), and for longer inputs the result is the specification's result on the record alone (C08_suffix_independent_spec). The implementation is run on all lengths 0..64 x contents with cap == len (Go panics exactly where the model faults) and with poisoned spare capacity, and on complete records with suffixes.",
+            TGEN_NOTE, "DESIGN.md 4/C08"),
+})
+
 PENDING_REASON = "check not built yet in this session (work in progress; see DESIGN.md section 10)"
 
 
